@@ -60,14 +60,27 @@ func VerifNoSharedWrites() {
 	if verifnd.Int(0, 1) == 1 {
 		fields["from_b"] = int64(2)
 	}
-	pt := &input.Point{}
-	input.InitPt(pt, "m", map[string]string{"tag1": "v1"}, fields, time.Time{})
+	// points come from the pool as in the library's callers; an earlier point with several tags
+	// has been through the pool already
+	pt0 := input.InitPt(input.GetPoint(), "m", map[string]string{"ta": "1", "tb": "2", "tc": "3"}, map[string]any{"message": "x"}, time.Time{})
+	pt0.Delete("tb")
+	input.PutPoint(pt0)
+	pt := input.InitPt(input.GetPoint(), "m", map[string]string{"tag1": "v1", "tag2": "v2"}, fields, time.Time{})
 	_ = scripts["a.p"].Run(pt, nil)
 	verifnd.Reach("ran")
 	// a second run of the same loaded script (what another goroutine would do) on another point
-	pt2 := &input.Point{}
-	input.InitPt(pt2, "m", nil, map[string]any{"message": "x"}, time.Time{})
+	pt2 := input.InitPt(input.GetPoint(), "m", map[string]string{"tag1": "w1", "tag3": "w3"}, map[string]any{"message": "x"}, time.Time{})
 	_ = scripts["a.p"].Run(pt2, nil)
+	// private points stay private: no index entry is shared inside a point or between the two
+	var seen []*input.TFMeta
+	for _, p := range []*input.Point{pt, pt2} {
+		for _, m := range p.Meta {
+			for _, o := range seen {
+				verifnd.Assert(o != m, "live-points-share-no-index-entry")
+			}
+			seen = append(seen, m)
+		}
+	}
 	// a concurrent parse of another source
 	srcs := []string{"a = 1 +", "if x { y = [1, 2][0] }", "for ;; { break }", "\"unterminated"}
 	_, _ = parser.ParsePipeline("other.p", srcs[verifnd.Choice(len(srcs))])
